@@ -21,6 +21,7 @@ import z3
 
 from pyvc import plug_graph as PG
 from pyvc.contract import Contract, LoopSpec, register, schema
+from pyvc.plug_c06 import TAsm, asm_step_fn  # noqa: I001
 from pyvc.plug_c06 import (ConvS, EXM_S, EXV_S, RS_MEMBERS, TConv, TNpReal, c06_array1, c06_div0, c06_norm, c06_out_m, c06_out_v, c06_sqrt,
                            c06_value_array, rs)
 from pyvc.plug_graph import DLIST, DataM, DataV, DiscS, TDisc
@@ -43,7 +44,8 @@ COMPOSITE = "gemseo.algos.sequence_transformer.composite.composite.CompositeSequ
 
 NRN = str_lit("MDA residuals norm")  # BaseMDA.NORMALIZED_RESIDUAL_NORM
 
-SETTINGS = TRec("c06.MDASettings", {"tolerance": TReal, "max_mda_iter": TInt, "log_convergence": TBool, "warm_start": TBool})
+SETTINGS = TRec("c06.MDASettings", {"tolerance": TReal, "max_mda_iter": TInt, "log_convergence": TBool, "warm_start": TBool, "execute_before_linearizing": TBool,
+                                    "newton_linear_solver_name": TStr, "newton_linear_solver_settings": TVal, "method": TStr})
 DATA = TDict(TStr, TVal)
 RESID = TDict(TStr, TNd)
 SLICES = TDict(TStr, TVal, ordered=True)  # name -> slice
@@ -74,6 +76,8 @@ _SOLVER_FIELDS = {
     "_current_residuals": RESID,
     "_sequence_transformer": TObj(RELAX, schema_key=RELAX + "#c06"),
     "_ProcessDiscipline__disciplines": DLIST,
+    "assembly": TAsm,  # the Jacobian assembly (opaque; C07)
+    "matrix_type": TStr,
 }
 for _cls in (SOLVER, GS, JACOBI):
     schema(_cls + "#c06", dict(_SOLVER_FIELDS))
@@ -94,6 +98,15 @@ pack = z3.Function("c06_pack", *_MS, DataM, DataV, ValS)  # concatenation, in th
 unpack_m = z3.Function("c06_unpack_member", *_MS, ValS, DataM)  # keys / values of the data a vector denotes through the map
 unpack_v = z3.Function("c06_unpack_vals", *_MS, ValS, DataV)
 EMPTY_VEC = z3.Const("val_empty_array", ValS)
+
+
+reference_of = z3.Function("c06_is_reference_of", StrS, ValS, B)  # the scaling data are a reference computed by that scaling method
+
+
+def scaling_invariant(scaling, data):
+    """`_scaling_data` is None or a reference of the CURRENT scaling method (typed in the verified variants of (B): a real / an array).
+    Established by __init__ (None), preserved by the scaling setters (F: verified - the data are reset) and by the norm computation."""
+    return z3.Or(data == val_none, reference_of(scaling, data))
 
 
 def _map_args(m):
@@ -195,9 +208,12 @@ class GetCurrentResolvedVariablesVector(_GetVector):
                    "map, local data) (uninterpreted), after the lazy computation of the maps")
 
 
-def data_updated(d1, d0, um, uv):
-    """d1 = d0 updated with the mapping (um, uv)."""
+def data_updated(d1, d0, um, uv, array_level=False):
+    """d1 = d0 updated with the mapping (um, uv).  (array_level: also as array equalities - for assumed summaries only)"""
     x = z3.Const("x!du", StrS)
+    if array_level:
+        nm, nv = z3.Lambda([x], z3.Or(d0.member[x], um[x])), z3.Lambda([x], z3.If(um[x], uv[x], d0.vals[x]))
+        return data_updated(d1, d0, um, uv) + [("keys(array)", d1.member == nm), ("values(array)", d1.vals == nv)]
     return [("keys", forall_pat([x], d1.member[x] == z3.Or(d0.member[x], um[x]), d1.member[x])),
             ("values", forall_pat([x], d1.vals[x] == z3.If(um[x], uv[x], d0.vals[x]), d1.vals[x]))]
 
@@ -243,6 +259,20 @@ class WarnConvergenceCriteria(Contract):
 
 # ============================================================================ (B) the normalized residual norm: scaling table
 from pyvc.gmodels import nd_size  # noqa: E402
+
+
+def coupled_system(s):
+    """The claim is about COUPLED systems: there is at least one resolved variable / residual, and the residual names-to-slices map (cached, or the
+    one that will be computed) is not empty.  (An MDA without resolved variables is left out of the claim: see not_covered.)"""
+    vm, rm, gr = s._BaseMDASolver__resolved_variable_names_to_slices, s._BaseMDASolver__resolved_residual_names_to_slices, s.c06_residual_map
+    return [("coupled:at-least-one-resolved-residual", s._BaseMDASolver__resolved_residual_names.n >= 1),
+            ("coupled:the-residual-map-is-not-empty", z3.And(gr.n >= 1, z3.Implies(vm.n != 0, rm.n >= 1)))]
+
+
+def pack_axioms():
+    """ASSUMED: the concatenation of the values of a non-empty names-to-slices map has at least one component."""
+    a = [z3.Const(f"p{i}!pa", srt) for i, srt in enumerate((*_MS, DataM, DataV))]
+    return [("packed-vector-of-a-non-empty-map-is-not-empty", z3.ForAll(a, z3.Implies(a[3] >= 1, nd_size(pack(*a)) >= 1), patterns=[pack(*a)]))]
 
 from pyvc.plug_c06 import c06_scalar  # noqa: E402  (the real a 0-d numpy value denotes)
 normed_of = z3.Function("c06_normed_residual", StrS, ValS, ValS, R)  # abstract view: (scaling, scaling data AFTER the call, residual vector) -> normed residual
@@ -304,10 +334,11 @@ def abstract_table(c):
     s0, s1 = c.old.self, c.new.self
     Rv = residual_vector(s0)
     # (every row of the table computes the norm from the reference AFTER the call: the one just fixed, or the stored one)
-    return normed_of(s0._scaling, s1._scaling_data, Rv), [("abstract", s1._scaling_data == next_scaling_data(s0._scaling, s0._scaling_data, Rv))]
+    return normed_of(s0._scaling, s1._scaling_data, Rv), [("abstract", s1._scaling_data == next_scaling_data(s0._scaling, s0._scaling_data, Rv)),
+                                                            ("inv:scaling-data-fit-the-current-method", scaling_invariant(s0._scaling, s1._scaling_data))]
 
 
-_NORM_RAISES = {"ValueError": None, "ZeroDivisionError": None}  # unknown scaling value / empty residual vector with SCALED_INITIAL_RESIDUAL_COMPONENT (see the variants)
+_NORM_RAISES = {"ValueError": None}  # a scaling value that is no ResidualScaling member (see the variant unknown_scaling)
 
 
 _NORM_MODIFIES = ("self", "self.io", "self.residual_history", "self._starting_indices", *_MAPS)
@@ -324,6 +355,9 @@ class _NormBase(Contract):
     def table(self, c, Rv):
         """-> (normed residual, list of clauses on the new scaling data)"""
         raise NotImplementedError
+
+    def axioms(self, c):
+        return pack_axioms()
 
     def ensures(self, c):
         N, sd_clauses = self.table(c, residual_vector(c.old.self))
@@ -344,6 +378,9 @@ class NormAbstract(_NormBase):
     raises = _NORM_RAISES
     raises_exact = False
 
+    def requires(self, c):
+        return [("inv:scaling-data-fit-the-current-method", scaling_invariant(c.old.self._scaling, c.old.self._scaling_data))] + coupled_system(c.old.self)
+
     def table(self, c, Rv):
         return abstract_table(c)
 
@@ -358,7 +395,8 @@ class _NormVariant(_NormBase):
 
     def requires(self, c):
         # (distinct string literals: a tautology of the string model, stated so that every member literal exists when the branches are decided)
-        return [("scaling-method", c.old.self._scaling == rs(self.member)), ("members-are-distinct-strings", z3.Distinct(*[rs(m) for m in RS_MEMBERS]))] + self.rep_invariant(c)
+        return [("scaling-method", c.old.self._scaling == rs(self.member)), ("members-are-distinct-strings", z3.Distinct(*[rs(m) for m in RS_MEMBERS]))] + \
+            self.rep_invariant(c) + coupled_system(c.old.self)
 
     def rep_invariant(self, c):
         return []
@@ -442,13 +480,11 @@ class NormInitialResidualComponent(_NormVariant):
 @register
 class NormScaledInitialResidualComponent(_NormVariant):
     """SCALED_INITIAL_RESIDUAL_COMPONENT: ||R / ref||_2 / sqrt(size of R) with ref = R_first + (R_first == 0), fixed the first time.
-    Python float division: ZeroDivisionError when the residual vector is empty."""
+    No exception for a coupled system (the Python float division by sqrt(size) needs a non-empty residual vector)."""
 
     variant = "scaled_initial_residual_component"
     member = "SCALED_INITIAL_RESIDUAL_COMPONENT"
     self_schema = _variant_schema("scaled_initial_residual_component", OPT_ND)
-    raises = {"ZeroDivisionError": lambda c: nd_size(residual_vector(c.old.self)) == 0}
-
     def table(self, c, Rv):
         ref = _ref_nd(c.old.self._scaling_data, Rv)
         return c06_norm(npf("op_Div", Rv, ref)) / c06_sqrt(nd_size(Rv)), [("reference-fixed-the-first-time", c.new.self._scaling_data.term == OPT_ND.dt.some(ref))]
@@ -482,6 +518,12 @@ class StopCriterionIsReached(Contract):
     modifies = _NORM_MODIFIES
     raises = _NORM_RAISES
     raises_exact = False
+
+    def requires(self, c):
+        return [("inv:scaling-data-fit-the-current-method", scaling_invariant(c.old.self._scaling, c.old.self._scaling_data))] + coupled_system(c.old.self)
+
+    def axioms(self, c):
+        return pack_axioms()
 
     def ensures(self, c):
         s1 = c.new.self
@@ -650,7 +692,7 @@ class UpdateLocalDataFromArray(Contract):
         s0, s1 = c.old.self, c.new.self
         vm = _map_args(s0._BaseMDASolver__resolved_variable_names_to_slices)
         um, uv = unpacked(vm, c.old.array_)
-        return data_updated(s1.io._IO__data, s0.io._IO__data, um, uv) + [("output-names-kept", s1.io.c06_output_names.member == s0.io.c06_output_names.member)]
+        return data_updated(s1.io._IO__data, s0.io._IO__data, um, uv, array_level=True) + [("output-names-kept", s1.io.c06_output_names.member == s0.io.c06_output_names.member)]
 
 
 @register
@@ -735,7 +777,8 @@ _LOOP_MODIFIES = ("self", "self.io", "self.residual_history", "self._starting_in
 def rep_invariant(s, tag):
     rm, gm = s._BaseMDASolver__resolved_residual_names_to_slices, s.c06_residual_map
     return [("inv:names-partitioned-by-converter", map_names_disjoint(rm.member, rm.vals, f"{tag}0")),
-            ("inv:names-partitioned-by-converter(computed)", map_names_disjoint(gm.member, gm.vals, f"{tag}1"))]
+            ("inv:names-partitioned-by-converter(computed)", map_names_disjoint(gm.member, gm.vals, f"{tag}1")),
+            ("inv:scaling-data-fit-the-current-method", scaling_invariant(s._scaling, s._scaling_data))] + coupled_system(s)
 
 
 def configuration_kept(s1, s0):
@@ -795,7 +838,7 @@ class _FixedPointExecute(Contract):
 
     def ensures(self, c):
         s0, s1 = c.old.self, c.new.self
-        out = configuration_kept(s1, s0)
+        out = configuration_kept(s1, s0) + [("inv:scaling-data-fit-the-current-method", scaling_invariant(s1._scaling, s1._scaling_data))]
         if "local_data_before_execution" not in c.locals:
             return out  # (max_mda_iter == 0 with Gauss-Seidel: one sweep, no residual)
         D = c.locals["local_data_before_execution"]
@@ -807,12 +850,12 @@ class _FixedPointExecute(Contract):
         ]
 
 
-def fixed_point_feed(s1, D, wm, wv, vm, Rv):
+def fixed_point_feed(s1, D, wm, wv, vm, Rv, c=None):
     """Gauss-Seidel / Jacobi: the transformer is fed the swept resolved variables and the residual vector."""
     return z3.If(s1._BaseMDASolver__resolved_variable_names.n == 0, EMPTY_VEC, pack(*vm, wm, wv)), Rv
 
 
-def fixed_point_invariant(c, k, sweep, feed=fixed_point_feed):
+def fixed_point_invariant(c, k, sweep, feed=fixed_point_feed, extra=None):
     s0, s1 = c.old.self, c.new.self
     out = [("counter", s1._current_iter == k)] + configuration_kept(s1, s0) + rep_invariant(s1, "iv")
     if "updated_couplings" not in c.locals or not hasattr(c.locals.get("local_data_before_execution"), "member"):
@@ -827,8 +870,8 @@ def fixed_point_invariant(c, k, sweep, feed=fixed_point_feed):
     nm, nv = _upd(wm, wv, um, uv)
     x = z3.Const("x!fi", StrS)
     d1, q = s1.io._IO__data, s1._sequence_transformer.c06_state
-    xvec, rvec = feed(s1, D, wm, wv, vm, Rv)
-    step = [
+    xvec, rvec = feed(s1, D, wm, wv, vm, Rv, c)
+    step = (extra(c, s1, D) if extra is not None else []) + [
         facts[0], facts[3],
         ("data-keys-are-sweep-then-transformed-iterate", forall_pat([x], d1.member[x] == nm[x], d1.member[x])),
         ("data-values-are-sweep-then-transformed-iterate", forall_pat([x], d1.vals[x] == nv[x], d1.vals[x])),
@@ -852,18 +895,19 @@ class GaussSeidelExecute(_FixedPointExecute):
 
 
 # ============================================================================ (D3) Jacobi sweep
-jac_m = z3.Function("c06_jacobi_member", _LS, I, DataM, DataV, DataM)  # keys / values of the data after the outputs of the first j disciplines were merged
-jac_v = z3.Function("c06_jacobi_vals", _LS, I, DataM, DataV, DataV)
+jac_m = z3.Function("c06_jacobi_member", _LS, I, DataM, DataV, DataM, DataV, DataM)  # (disciplines, j, data, execution point): keys / values of the data after
+jac_v = z3.Function("c06_jacobi_vals", _LS, I, DataM, DataV, DataM, DataV, DataV)  # the outputs of the first j disciplines were merged
 
 
-def jacobi_axioms(L, m0, v0):
-    """F(0) = data;  F(j+1) = F(j) updated with the outputs of L[j] executed ON THE INITIAL data (all disciplines see the same data)."""
+def jacobi_axioms(L, m0, v0, pm, pv):
+    """F(0) = data;  F(j+1) = F(j) updated with the outputs of L[j] executed ON THE SAME point (pm, pv) (the initial data in a Jacobi sweep)."""
     j = z3.Int("j!jc")
-    fm, fv = jac_m(L, j, m0, v0), jac_v(L, j, m0, v0)
-    nm, nv = _upd(fm, fv, c06_out_m(L[j], m0, v0), c06_out_v(L[j], m0, v0))
-    return [("jacobi-def:0", z3.And(jac_m(L, 0, m0, v0) == m0, jac_v(L, 0, m0, v0) == v0)),
-            ("jacobi-def:member", z3.ForAll([j], z3.Implies(j >= 0, jac_m(L, j + 1, m0, v0) == nm), patterns=[jac_m(L, j + 1, m0, v0)])),
-            ("jacobi-def:vals", z3.ForAll([j], z3.Implies(j >= 0, jac_v(L, j + 1, m0, v0) == nv), patterns=[jac_v(L, j + 1, m0, v0)]))]
+    a = (m0, v0, pm, pv)
+    fm, fv = jac_m(L, j, *a), jac_v(L, j, *a)
+    nm, nv = _upd(fm, fv, c06_out_m(L[j], pm, pv), c06_out_v(L[j], pm, pv))
+    return [("jacobi-def:0", z3.And(jac_m(L, 0, *a) == m0, jac_v(L, 0, *a) == v0)),
+            ("jacobi-def:member", z3.ForAll([j], z3.Implies(j >= 0, jac_m(L, j + 1, *a) == nm), patterns=[jac_m(L, j + 1, *a)])),
+            ("jacobi-def:vals", z3.ForAll([j], z3.Implies(j >= 0, jac_v(L, j + 1, *a) == nv), patterns=[jac_v(L, j + 1, *a)]))]
 
 
 def executed_on(c, L, upto, m, v, tag):
@@ -898,36 +942,51 @@ class JacobiExecuteSequentially(_ExecuteSequentially):
     self_schema = JACOBI + "#c06"
 
 
+def _sweep_point(c, uses_input):
+    """MDAJacobi ignores its argument; BaseMDARoot executes on `input_data or self.io.data`."""
+    d0, inp = c.old.self.io._IO__data, c.old.input_data
+    if not uses_input:
+        return d0.member, d0.vals
+    return z3.If(inp.n == 0, d0.member, inp.member), z3.If(inp.n == 0, d0.vals, inp.vals)
+
+
+def _jac_inv(c, k, uses_input, label="data-is-the-partial-sweep"):
+    s0, s1 = c.old.self, c.new.self
+    L, d0 = s0._ProcessDiscipline__disciplines, s0.io._IO__data
+    a = (d0.member, d0.vals, *_sweep_point(c, uses_input))
+    return [(label, data_is(s1.io._IO__data, jac_m(L.elems, k, *a), jac_v(L.elems, k, *a))),
+            ("output-names-kept", s1.io.c06_output_names.member == s0.io.c06_output_names.member)]
+
+
+def _sweep_loops(uses_input):
+    return {0: LoopSpec(anchor="self.disciplines", inv=lambda c, k: _jac_inv(c, k, uses_input), modifies=("self.io",))}
+
+
 class _JacobiSweep(Contract):
-    """One Jacobi sweep (serial mode, no input data given): every discipline is executed on the SAME local data, then the local data are
-    updated with the outputs of the disciplines in list order."""
+    """One Jacobi-type sweep (serial mode): every discipline is executed on the SAME data (the local data; for BaseMDARoot the given data
+    when there are some), then the local data are updated with the outputs of the disciplines in list order."""
 
     prop = ("C06",)
     c06 = True
     c06_serial = True
     params = {"input_data": DATA}
     modifies = ("self.io", "ghost:c06_exec_m", "ghost:c06_exec_v")
-    loops = {0: LoopSpec(anchor="self.disciplines", inv=lambda c, k: _jac_inv(c, k), modifies=("self.io",))}
-
-    def requires(self, c):
-        return [("no-input-data-given", c.old.input_data.n == 0)]
+    uses_input = False
+    loops = _sweep_loops(False)
 
     def axioms(self, c):
         s = c.old.self
-        return jacobi_axioms(s._ProcessDiscipline__disciplines.elems, s.io._IO__data.member, s.io._IO__data.vals)
+        L, d0 = s._ProcessDiscipline__disciplines.elems, s.io._IO__data
+        if not self.uses_input:
+            return jacobi_axioms(L, d0.member, d0.vals, d0.member, d0.vals)
+        inp = c.old.input_data  # (two guarded instances: an `if` term cannot be a trigger)
+        return [(f"{l}(no input data)", z3.Implies(inp.n == 0, f)) for l, f in jacobi_axioms(L, d0.member, d0.vals, d0.member, d0.vals)] + \
+            [(f"{l}(input data)", z3.Implies(inp.n != 0, f)) for l, f in jacobi_axioms(L, d0.member, d0.vals, inp.member, inp.vals)]
 
     def ensures(self, c):
-        s0, s1 = c.old.self, c.new.self
-        L, d0 = s0._ProcessDiscipline__disciplines, s0.io._IO__data
-        return [("data-is-the-sweep", data_is(s1.io._IO__data, jac_m(L.elems, L.n, d0.member, d0.vals), jac_v(L.elems, L.n, d0.member, d0.vals))),
-                ("output-names-kept", s1.io.c06_output_names.member == s0.io.c06_output_names.member)]
-
-
-def _jac_inv(c, k):
-    s0, s1 = c.old.self, c.new.self
-    L, d0 = s0._ProcessDiscipline__disciplines, s0.io._IO__data
-    return [("data-is-the-partial-sweep", data_is(s1.io._IO__data, jac_m(L.elems, k, d0.member, d0.vals), jac_v(L.elems, k, d0.member, d0.vals))),
-            ("output-names-kept", s1.io.c06_output_names.member == s0.io.c06_output_names.member)]
+        return _jac_inv(c, c.old.self._ProcessDiscipline__disciplines.n, self.uses_input, "data-is-the-sweep") + [
+            ("all-executed-on-the-same-point", executed_on(c, c.old.self._ProcessDiscipline__disciplines, c.old.self._ProcessDiscipline__disciplines.n,
+                                                           *_sweep_point(c, self.uses_input), "js"))]
 
 
 @register
@@ -937,7 +996,7 @@ class JacobiSweep(_JacobiSweep):
 
 
 def jacobi_sweep(L):
-    return lambda D: (jac_m(L.elems, L.n, D.member, D.vals), jac_v(L.elems, L.n, D.member, D.vals))
+    return lambda D: (jac_m(L.elems, L.n, D.member, D.vals, D.member, D.vals), jac_v(L.elems, L.n, D.member, D.vals, D.member, D.vals))
 
 
 @register
@@ -954,7 +1013,7 @@ class JacobiExecute(_FixedPointExecute):
 # ============================================================================ (E) MDASequential
 from pyvc.plug_c06 import c06_mda_normed, c06_mda_res_m, c06_mda_res_v  # noqa: E402
 
-schema(SEQ + "#c06", {"settings": SETTINGS, "reset_history_each_run": TBool, "residual_history": TList(TReal), "io": TObj(IOCLS, schema_key=IOCLS + "#c06"),
+schema(SEQ + "#c06", {"settings": SETTINGS, "_scaling": TStr, "reset_history_each_run": TBool, "residual_history": TList(TReal), "io": TObj(IOCLS, schema_key=IOCLS + "#c06"),
                       "mda_sequence": DLIST})
 sq_m = z3.Function("c06_sequence_member", _LS, I, I, DataM, DataV, DataM)  # (mdas, j, first epoch, start data): data returned by the j-th executed MDA
 sq_v = z3.Function("c06_sequence_vals", _LS, I, I, DataM, DataV, DataV)
@@ -1031,39 +1090,94 @@ class RootSweep(_JacobiSweep):
 
     targets = (ROOT + "._execute_disciplines_and_update_local_data",)
     self_schema = ROOT + "#c06"
+    uses_input = True
+    loops = _sweep_loops(True)
 
 
 # ============================================================================ (D5) Newton-Raphson loop
 schema(NEWTON + "#c06", dict(_SOLVER_FIELDS))
-newton_step_of = z3.Function("c06_newton_step", DataM, DataV, ValS, ValS)  # (linearization / input data, residual vector) -> -(dR/dy)^-1 R
+LINE_S = z3.ArraySort(DiscS, B)
+_LIN = ("ghost:c06_lin_m", "ghost:c06_lin_v", "ghost:c06_lin_exec")
+
+
+def linearized_at(c, L, upto, m, v, e, tag):
+    """The first `upto` disciplines of L were last linearized at the data (m, v) with execute = e (ghost maps of the opaque disciplines)."""
+    lm, lv, le = c.new_ghost("c06_lin_m", EXM_S), c.new_ghost("c06_lin_v", EXV_S), c.new_ghost("c06_lin_exec", LINE_S)
+    j = z3.Int(f"j!{tag}")
+    return z3.ForAll([j], z3.Implies(z3.And(0 <= j, j < upto), z3.And(lm[L.elems[j]] == m, lv[L.elems[j]] == v, le[L.elems[j]] == e)), patterns=[L.elems[j]])
+
+
+@register
+class RootLinearizeSequentially(Contract):
+    """Every discipline is linearized at the given data, with execute = settings.execute_before_linearizing; the data are not modified."""
+
+    targets = (ROOT + "._linearize_disciplines_sequentially",)
+    prop = ("C06",)
+    c06 = True
+    self_schema = ROOT + "#c06"
+    params = {"input_data": DATA}
+    modifies = _LIN
+    loops = {0: LoopSpec(anchor="self.disciplines", inv=lambda c, k: [("linearized-so-far", _rl(c, k, "rli"))], modifies=_LIN)}
+
+    def ensures(self, c):
+        return [("all-linearized-at-the-given-data", _rl(c, c.old.self._ProcessDiscipline__disciplines.n, "rle"))]
+
+
+def _rl(c, upto, tag):
+    s, d = c.old.self, c.old.input_data
+    return linearized_at(c, s._ProcessDiscipline__disciplines, upto, d.member, d.vals, s.settings.execute_before_linearizing, tag)
+
+
+def names_term(L):
+    return NAMES.dt.mk(L.n, L.elems)
+
+
+def newton_step_term(c, s, m, v, Rv):
+    """The step JacobianAssembly.compute_newton_step returns (C07) for the CURRENT linearization state of the disciplines, the data (m, v), the
+    resolved variable names, the configured linear solver / matrix type / solver settings, the residual vector Rv and the resolved residual names."""
+    from pyvc.values import val_of_str
+
+    lm, lv, le = c.new_ghost("c06_lin_m", EXM_S), c.new_ghost("c06_lin_v", EXV_S), c.new_ghost("c06_lin_exec", LINE_S)
+    return asm_step_fn()(s.assembly, lm, lv, le, m, v, names_term(s._BaseMDASolver__resolved_variable_names), s.settings.newton_linear_solver_name, val_of_str(s.matrix_type), Rv,
+                         names_term(s._BaseMDASolver__resolved_residual_names), s.settings.newton_linear_solver_settings)
 
 
 @register
 class ComputeNewtonStep(Contract):
-    """ASSUMED: the Newton step computed from the disciplines linearized at the given data and from the current residual vector
-    (JacobianAssembly.compute_newton_step is verified in C07: step = (dR/dy)^-1 (-R))."""
+    """Delegation: every discipline is linearized at input_data (execute as configured), then the result is the step of
+    JacobianAssembly.compute_newton_step (verified in C07: (dR/dy) step = -R) called with input_data, the resolved VARIABLE names as couplings,
+    the configured linear solver, matrix type and solver settings, residuals = the current resolved RESIDUAL vector and the resolved
+    residual names; the warning on a non-converged linear solver is a log message."""
 
     targets = (NEWTON + ".__compute_newton_step",)
     prop = ("C06",)
-    trusted = True
-    description = ("assumed: MDANewtonRaphson.__compute_newton_step(input_data) linearizes the disciplines at input_data and returns the step of "
-                   "JacobianAssembly.compute_newton_step for the current residual vector (verified in C07: (dR/dy) step = -R), here the uninterpreted "
-                   "c06_newton_step(input data, residual vector); the delegation itself (arguments passed, linear-solver settings) is NOT verified")
+    c06 = True
+    c06_serial = True
     self_schema = NEWTON + "#c06"
     params = {"input_data": DATA}
     returns = TNd
-    modifies = _MAPS
+    modifies = (*_MAPS, *_LIN)
 
     def ensures(self, c):
-        s0, s1 = c.old.self, c.new.self
-        return maps_are(s1, s0) + [("step", c.result == newton_step_of(c.old.input_data.member, c.old.input_data.vals, residual_vector(s0)))]
+        s0, s1, d = c.old.self, c.new.self, c.old.input_data
+        empty = s0._BaseMDASolver__resolved_residual_names.n == 0
+        return [(l, z3.Implies(z3.Not(empty), f)) for l, f in maps_are(s1, s0)] + [
+            ("no-names-nothing-computed", z3.Implies(empty, maps_kept(s1, s0))),
+            ("disciplines-linearized-at-the-input-data", linearized_at(c, s0._ProcessDiscipline__disciplines, s0._ProcessDiscipline__disciplines.n, d.member, d.vals,
+                                                                       s0.settings.execute_before_linearizing, "cns")),
+            ("step-of-the-assembly", c.result == newton_step_term(c, s0, d.member, d.vals, residual_vector(s0)))]
 
 
-def newton_feed(s1, D, wm, wv, vm, Rv):
+def newton_feed(s1, D, wm, wv, vm, Rv, c=None):
     """Newton: the transformer is fed (couplings the iteration started from + Newton step, Newton step)."""
-    ns = newton_step_of(D.member, D.vals, Rv)
+    ns = newton_step_term(c, s1, D.member, D.vals, Rv)
     y = z3.If(s1._BaseMDASolver__resolved_variable_names.n == 0, EMPTY_VEC, pack(*vm, D.member, D.vals))
     return npf("op_Add", y, ns), ns
+
+
+def newton_extra(c, s1, D):
+    L = s1._ProcessDiscipline__disciplines
+    return [("disciplines-linearized-at-the-start-data", linearized_at(c, L, L.n, D.member, D.vals, s1.settings.execute_before_linearizing, "nx"))]
 
 
 @register
@@ -1076,5 +1190,128 @@ class NewtonRaphsonExecute(_FixedPointExecute):
     self_schema = NEWTON + "#c06"
     c06_serial = True
     sweep = staticmethod(jacobi_sweep)
-    loops = {0: LoopSpec(anchor="True", inv=lambda c, k: fixed_point_invariant(c, k, jacobi_sweep, newton_feed), modifies=_LOOP_MODIFIES,
+    modifies = (*_LOOP_MODIFIES, *_LIN)
+    loops = {0: LoopSpec(anchor="True", inv=lambda c, k: fixed_point_invariant(c, k, jacobi_sweep, newton_feed, newton_extra), modifies=(*_LOOP_MODIFIES, *_LIN),
                          local_types={"local_data_before_execution": DATA, "updated_couplings": TNd, "input_couplings": TNd, "newton_step": TNd})}
+
+
+# ============================================================================ (F) the scaling setters: the representation invariant of the scaling data
+CHAINMDA = "gemseo.mda.mda_chain.MDAChain"
+SC_S, SD_S = z3.ArraySort(DiscS, StrS), z3.ArraySort(DiscS, ValS)
+schema(MDA + "#c06set", {"_scaling": TStr, "_scaling_data": TVal})
+schema(CHAINMDA + "#c06", {"_scaling": TStr, "inner_mdas": DLIST})
+
+
+@register
+class ScalingSetter(Contract):
+    """The scaling method is set and the scaling data are RESET (fix 05f502e), so that whatever the previous method and its reference were,
+    the invariant "scaling data are None or a reference of the current method" holds afterwards."""
+
+    targets = (MDA + ".scaling",)
+    setter = True
+    prop = ("C06",)
+    c06 = True
+    self_schema = MDA + "#c06set"
+    params = {"scaling": TStr}
+    modifies = ("self",)
+
+    def ensures(self, c):
+        s1 = c.new.self
+        return [("scaling-method-set", s1._scaling == c.old.scaling), ("scaling-data-reset", s1._scaling_data == val_none),
+                ("inv:scaling-data-fit-the-current-method", scaling_invariant(s1._scaling, s1._scaling_data))]
+
+
+def _inner_scaling(c, L, upto, tag):
+    """The first `upto` inner MDAs have the new scaling method and no scaling data; every MDA that is not one of them is untouched."""
+    sc0, sd0 = c.old_ghost("c06_mda_scaling", SC_S), c.old_ghost("c06_mda_scaling_data", SD_S)
+    sc1, sd1 = c.new_ghost("c06_mda_scaling", SC_S), c.new_ghost("c06_mda_scaling_data", SD_S)
+    j, d = z3.Int(f"j!{tag}"), z3.Const(f"d!{tag}", DiscS)
+    new = c.old.scaling
+    return [("propagated-and-reset", z3.ForAll([j], z3.Implies(z3.And(0 <= j, j < upto), z3.And(sc1[L.elems[j]] == new, sd1[L.elems[j]] == val_none,
+                                                                                              scaling_invariant(sc1[L.elems[j]], sd1[L.elems[j]]))), patterns=[L.elems[j]])),
+            ("other-mdas-untouched", z3.ForAll([d], z3.Or(z3.And(sc1[d] == sc0[d], sd1[d] == sd0[d]), z3.Exists([j], z3.And(0 <= j, j < upto, L.elems[j] == d))), patterns=[sc1[d]]))]
+
+
+class _ComposedScalingSetter(Contract):
+    """The scaling method is set on the composed MDA and PROPAGATED to every inner MDA through its own setter, which resets its scaling
+    data: the invariant holds for every inner MDA afterwards."""
+
+    setter = True
+    prop = ("C06",)
+    c06 = True
+    params = {"scaling": TStr}
+    modifies = ("self", "ghost:c06_mda_scaling", "ghost:c06_mda_scaling_data")
+    inner = ""
+
+    def ensures(self, c):
+        L = getattr(c.old.self, self.inner)
+        return [("scaling-method-set", c.new.self._scaling == c.old.scaling), ("inner-mdas-kept", same_list(getattr(c.new.self, self.inner), L))] + _inner_scaling(c, L, L.n, "cs")
+
+
+def _css_inv(c, k, inner):
+    L = getattr(c.old.self, inner)
+    return [("scaling-method-set", c.new.self._scaling == c.old.scaling), ("inner-mdas-kept", same_list(getattr(c.new.self, inner), L))] + _inner_scaling(c, L, k, "ci")
+
+
+@register
+class SequentialScalingSetter(_ComposedScalingSetter):
+    targets = (SEQ + ".scaling",)
+    self_schema = SEQ + "#c06"
+    inner = "mda_sequence"
+    loops = {0: LoopSpec(anchor="self.mda_sequence", inv=lambda c, k: _css_inv(c, k, "mda_sequence"), modifies=("ghost:c06_mda_scaling", "ghost:c06_mda_scaling_data"))}
+
+
+@register
+class ChainScalingSetter(_ComposedScalingSetter):
+    targets = (CHAINMDA + ".scaling",)
+    self_schema = CHAINMDA + "#c06"
+    inner = "inner_mdas"
+    loops = {0: LoopSpec(anchor="self.inner_mdas", inv=lambda c, k: _css_inv(c, k, "inner_mdas"), modifies=("ghost:c06_mda_scaling", "ghost:c06_mda_scaling_data"))}
+
+
+# ============================================================================ (D6) the residual function MDAQuasiNewton hands to scipy.optimize.root
+QN = "gemseo.mda.quasi_newton.MDAQuasiNewton"
+schema(QN + "#c06", {**_SOLVER_FIELDS, "current_iter": TInt})
+from pyvc.plug_c06 import asm_residuals_fn  # noqa: E402
+
+
+@register
+class QuasiNewtonComputeResiduals(Contract):
+    """The function handed to scipy.optimize.root (serial mode).  With Y = the local data updated with unpack(x_vect): every discipline is
+    executed ON Y; the local data become the local data (NOT Y: a copy is restored first) updated with the disciplines' outputs in list order;
+    the residuals of the resolved names are value(new local data) - value(Y); the result is JacobianAssembly.residuals(Y, resolved variable
+    names) (C07: computed value - prescribed value per name) for disciplines executed on Y; current_iter is incremented."""
+
+    targets = (QN + ".__compute_residuals",)
+    prop = ("C06",)
+    c06 = True
+    c06_serial = True
+    self_schema = QN + "#c06"
+    params = {"x_vect": TNd}
+    returns = TNd
+    modifies = ("self", "self.io", "self._current_residuals", *_MAPS, "ghost:c06_exec_m", "ghost:c06_exec_v")
+
+    def requires(self, c):
+        return rep_invariant(c.old.self, "qr")[:2]
+
+    def ensures(self, c):
+        s0, s1 = c.old.self, c.new.self
+        d0, L = s0.io._IO__data, s0._ProcessDiscipline__disciplines
+        vm = _map_args(s0._BaseMDASolver__resolved_variable_names_to_slices)
+        um, uv = unpacked(vm, c.old.x_vect)
+        Y = c.locals["local_data_before_execution"]  # the mapping the disciplines are given
+        ym, yv = Y.member, Y.vals
+        pm, pv = z3.If(Y.n == 0, d0.member, ym), z3.If(Y.n == 0, d0.vals, yv)  # `input_data or self.io.data` (an empty Y: the restored local data)
+        a = (d0.member, d0.vals, pm, pv)
+        cached = s0._BaseMDASolver__resolved_variable_names_to_slices.n != 0
+        out = [(f"Y-is-the-local-data-updated-with-the-data-x_vect-denotes:{l}", f) for l, f in data_updated(Y, d0, um, uv, array_level=True)] + [
+               ("iteration-counted", s1.current_iter == s0.current_iter + 1),
+               ("local-data-are-the-outputs-of-the-disciplines-executed-on-Y-merged-into-the-previous-local-data",
+                data_is(s1.io._IO__data, jac_m(L.elems, L.n, *a), jac_v(L.elems, L.n, *a))),
+               ("all-disciplines-executed-on-Y", executed_on(c, L, L.n, pm, pv, "qe")),
+               ("result-is-the-assembly-residual-at-Y", c.result == asm_residuals_fn()(s0.assembly, c.new_ghost("c06_exec_m", EXM_S), c.new_ghost("c06_exec_v", EXV_S), ym, yv,
+                                                                                      names_term(s0._BaseMDASolver__resolved_variable_names)))]
+        for tag, guard, rm in (("cached", cached, s0._BaseMDASolver__resolved_residual_names_to_slices), ("computed", z3.Not(cached), s0.c06_residual_map)):
+            out += [(f"{l}({tag})", z3.Implies(guard, f)) for l, f in residuals_are(s1._current_residuals, s0._current_residuals, _map_args(rm),
+                                                                                 s0._BaseMDASolver__resolved_variable_names, s1.io._IO__data, Y, tag=f"q{tag[:2]}")][:1]
+        return out + configuration_kept(s1, s0)
